@@ -104,6 +104,7 @@ inductive Pc where
   | begin (b : Body) (k : Pc)             -- a closure is invoked (harness event `beg`, or the internal take)
   | body (op : Nat) (k : Pc)              -- harness closure running (nested calls may be invoked); `k` after its end
   | panicked                              -- the call panicked (refused by a panicked queue)
+  | unwinding (k : Pc)                    -- a panic is unwinding out of run_one_job_now (the runner's guard marks the queue panicked)
   -- schedule_thread(core) -> k
   | stReap (k : Pc)
   | stScanLock (k : Pc)
